@@ -1,5 +1,6 @@
 //! verif-sim: deterministic simulation with fault injection for starlark-rust.
 
+mod atomrt;
 mod core;
 mod genprog;
 mod kit;
